@@ -5,6 +5,7 @@ import (
 	"encoding/json"
 	"fmt"
 	"sort"
+	"strconv"
 )
 
 // Val is a serialisable description of a Go value handed to the orda API. It can be
@@ -169,8 +170,8 @@ func (v Val) Go() interface{} {
 }
 
 // JSON returns the JSON form (float64 numbers, map[string]interface{}, []interface{}) that the
-// value stands for: every number converted exactly to float64 (a float32 is widened, not
-// re-parsed from its shortest decimal form), pointers dereferenced, structs by their json tags.
+// value stands for: every number converted to float64 (a float32 becomes the float64 with the same
+// shortest decimal form, which is what its JSON encoding carries), pointers dereferenced, structs by their json tags.
 func (v Val) JSON() interface{} {
 	return toJSON(v.Go())
 }
@@ -192,9 +193,9 @@ func toJSON(x interface{}) interface{} {
 	case *float64:
 		return *t
 	case float32:
-		return float64(t)
+		return f32(t)
 	case *float32:
-		return float64(*t)
+		return f32(*t)
 	case int:
 		return float64(t)
 	case int8:
@@ -341,4 +342,13 @@ func Normalize(x interface{}) interface{} {
 		return "!decode-error:" + err.Error()
 	}
 	return out
+}
+
+// f32 is the float64 that the JSON encoding of a float32 carries (same shortest decimal form).
+func f32(f float32) float64 {
+	v, err := strconv.ParseFloat(strconv.FormatFloat(float64(f), 'g', -1, 32), 64)
+	if err != nil {
+		return float64(f)
+	}
+	return v
 }
